@@ -4,7 +4,7 @@ from vlib import *
 
 FULL_SYMS = ["A", "N", "D", "O", "R", "T", "o", "r", "x", "EACUTE", "CJK", "d1", "UDIGIT", "UND", "STAR", "QM", "SP", "TAB", "CR", "NL",
              "LP", "RP", "LS", "RS", "LC", "RC", "COLON", "PLUS", "EQ", "GT", "TILDE", "CARET", "LT", "HASH", "SEMI", "PCT", "COMMA",
-             "NUL", "BAD", "NBSP", "BANG", "AMP", "PIPE", "AT", "USYM", "LSEP", "DEL", "CTRL", "UREPL", "BS", "MINUS", "DOT", "DQ", "SQ", "SL"]
+             "NUL", "BAD", "NBSP", "BANG", "AMP", "PIPE", "AT", "USYM", "LSEP", "DEL", "CTRL", "UREPL", "LDQ", "RDQ", "BS", "MINUS", "DOT", "DQ", "SQ", "SL"]
 # one representative per `case` of lex.go
 SUB_SYMS = ["O", "R", "x", "d1", "STAR", "SP", "NL", "LP", "COLON", "HASH", "BS", "MINUS", "DOT", "DQ", "SL", "EACUTE"]
 SUB_SYMS_SMALL = ["O", "R", "x", "d1", "STAR", "SP", "LP", "COLON", "HASH", "BS", "MINUS", "DQ", "SL", "CJK"]
